@@ -51,8 +51,11 @@ Judge == i = 0 \/ Ok(Recs[i]) \/ ~PrintT(<<"VF", "BAD", i, Sig(Recs[i])>>)
 (* domain completeness: the harness answered every case of the domain defined above *)
 ASSUME N = 0 \/ {[msg |-> Recs[k].msg, kinds |-> Recs[k].kseq, ck |-> Recs[k].ck, cf |-> Recs[k].cf, var |-> Recs[k].var] : k \in 1..N} = Cases
 
-(* design level (no code involved): the pinned hasField rule disagrees with P, the repaired one agrees *)
-DesignAgrees(pinned) == \A c \in Cases : LET f == FieldsOf(c.kinds) co == CondOf(c) IN
-                          ResolveOpen(c.msg = 1, f, co) \/ SResolves(c.msg = 1, f, co, pinned) = Resolves(c.msg = 1, f, co)
-ASSUME PrintT(<<"VF", "DESIGN", DesignAgrees(TRUE), DesignAgrees(FALSE)>>)
+(* design level (no code involved): the code-shaped hasField rule (repaired code) agrees with P on the *)
+(* whole domain; the rule before the repair does not (printed for the record)                          *)
+DesignAgrees == \A c \in Cases : LET f == FieldsOf(c.kinds) co == CondOf(c) IN
+                  ResolveOpen(c.msg = 1, f, co) \/ SResolves(c.msg = 1, f, co) = Resolves(c.msg = 1, f, co)
+DesignAgreesPinned == \A c \in Cases : LET f == FieldsOf(c.kinds) co == CondOf(c) IN
+                  ResolveOpen(c.msg = 1, f, co) \/ SResolvesPinned(c.msg = 1, f, co) = Resolves(c.msg = 1, f, co)
+ASSUME PrintT(<<"VF", "DESIGN", DesignAgrees, DesignAgreesPinned>>)
 =============================================================================
